@@ -1247,7 +1247,8 @@ def check_C15(rep, fl):
             if len(pays) == 1:
                 a[1] = norm(rb.expand(pays[0]))
         taken = (is_call(a[1], "mem::replace") and len(a[1][2]) == 2 and (is_call(a[1][2][1], "Vec::with_capacity") or is_call(a[1][2][1], "Vec::new"))) or is_call(a[1], "mem::take")
-        ok = ok and a[0] == norm(F(V("self"), "cons")) and (is_call(a[1], "Clone::clone") or a[1][0] == "var" or taken)
+        copied = is_call(a[1], "Clone::clone") or is_call(a[1], "to_vec") or is_call(a[1], "ToOwned::to_owned") or is_call(a[1], "<impl [T]>::to_vec") or (is_call(a[1], "From::from") and len(a[1][2]) == 1)
+        ok = ok and a[0] == norm(F(V("self"), "cons")) and (copied or a[1][0] == "var" or taken)
     rep.check(ok, "R15.2", fl, rb, "flush iff full", "the batch is handed to the policy exactly when it reached capa", "the batch is not flushed exactly when len >= capa")
     # the buffer is emptied whatever the outcome: every path through the flush passes a clear / replacement
     if pp_:
